@@ -23,6 +23,8 @@ pub mod verif {
     pub use crate::block_ranges::verif_hooks as block_ranges;
     pub use crate::pruner::verif_hooks as pruner;
     pub use crate::syncer::verif_hooks as syncer;
+    pub use crate::daser::verif_hooks as daser;
+    pub use crate::pruner::verif_sim_hooks as pruner_sim;
     pub mod header_ex_client_sim { pub use crate::p2p::header_ex_client_sim_verif_hooks::*; }
 }
 
